@@ -16,7 +16,72 @@ finishcode F;
 yieldcode Y;
 """
 
-MATCHES = ['"a"', '"ab"', '"Ab"i', '"61 62"b', '/a+/', '/a*b/', '/[^a]/', '/./', '/(ab|c){1,2}/', 'b/61[62-63]+/', '/[a-c]x?/', '"c"', '/b+c/', '("a" /b+/)', '/\\d+/', '/[ab]/']
+PAIR_ATOMS = ['"a"', '"ab"', '"Ab"i', '/a+/', '/a*b/', '/[^a]/', '/./', '/(ab|c){1,2}/', '/[ab]+/', '/[bc]/', '/[bc]x/', '/[a-c]x?/', '/b+c/', '/\\d+/', '/[ab]c?/',
+              'wait "ab"', 'wait /a+b/', 'end', 'x += /a+/', 'x += "ab"', 'b/61[62-63]+/', '/[^b]*/', '/a?b?/', '"c"']
+PAIR_WRAPS = ['{m};', 'optional {{ {m}; }}', 'loop {{ {m}; optional {{ "!"; break; }} }}', 'case {{ {m} -> {{ h(); }} "z" -> {{ }} }}', 'try {{ {m}; }} catch {{ }}',
+              'foreach {{ {m}; }} do {{ n = [n + 1]; }}', 'if n > 2 {{ {m}; }}']
+
+
+def pair_programs(thorough=False):
+    """all statement pairs `A; B` over the depth-1 constructs (drives the join-time contracts exhaustively)"""
+    out = []
+    firsts = []
+    for m in PAIR_ATOMS:
+        for w in (PAIR_WRAPS if thorough else PAIR_WRAPS[:3]):
+            if m.startswith(("wait", "end", "x +=")) and "case" in w:
+                continue
+            firsts.append(w.format(m=m))
+    seconds = [m + ";" for m in PAIR_ATOMS] + (['optional { "a"; }', 'case { "a" -> { } /b+/ -> { } }', 'if n > 2 { "a"; } else { "b"; }', 'loop { "a"; "." ; break; }'] )
+    k = 0
+    for a in firsts:
+        for b in seconds:
+            src = DECLS + "parser { " + a + " " + b + ' ";"; }\n'
+            out.append({"name": f"pair/{k}", "src": src, "args": ["-feof-support", "-fyield-support"], "path": None})
+            k += 1
+    return out
+
+
+WAIT_PATTERNS = ['"ab"', '"abcabd"', '"aab"i', '"aa"', '/a+b/', '/a[^a]b/', '/<[^<>]+>/', '("k" /[^k]/ "k")', '/ab*[^c]d/', '/[^a]/', '/.a/', '/a.b/', '/(ab|ac)d/', '/a{2,3}b/',
+                 '"61 61 62"b', 'b/61[^61]62/', '/\\d+;/', '/[ab][^b][ab]/', '("a" "ab")', '/x[^x]*x/', '/ab?c?d/', '"\\r\\n\\r\\n"']
+
+
+def wait_programs():
+    out = []
+    k = 0
+    ctxs = ['wait {p}; ";";', 'x += "a"; wait {p}; h();', 'try {{ "q"; wait {p}; }} catch {{ wait {p}; }} "z";', 'loop {{ wait {p}; optional {{ "!"; break; }} }} ";";', 'wait {p}; end;']
+    for p in WAIT_PATTERNS:
+        for c in ctxs:
+            src = DECLS + "parser { " + c.format(p=p) + " }\n"
+            out.append({"name": f"wait/{k}", "src": src, "args": ["-feof-support", "-fyield-support"], "path": None})
+            k += 1
+    return out
+
+
+def case_programs():
+    """clause sets for case / greedy case (drives the merge contracts)"""
+    import itertools
+    pats = ['"a"', '"ab"', '"abc"', '"Ab"i', '/a+/', '/a*b/', '/[ab]+/', '/[bc]/', '/[^a]/', '/./', '/ab?/', '/\\w+/', '/\\d+/', '"if"', '"in"', '"int"', '/[a-z]+/', 'end', 'b/61 62?/']
+    out = []
+    k = 0
+    for n in (2, 3):
+        for combo in itertools.combinations(pats, n):
+            if n == 3 and k % 7:
+                k += 1
+                continue
+            for greedy in (False, True):
+                cls = []
+                for i, pth in enumerate(combo):
+                    pre = f"prio {i} " if greedy and (k + i) % 3 == 0 else ""
+                    cls.append(f"{pre}{pth} -> {{ n = [{i + 1}]; }}")
+                if k % 2:
+                    cls.append("else -> { n = [9]; }")
+                src = DECLS + "parser { " + ("greedy " if greedy else "") + "case { " + " ".join(cls) + ' } ";"; }\n'
+                out.append({"name": f"case/{k}{'g' if greedy else ''}", "src": src, "args": ["-feof-support", "-fyield-support"], "path": None})
+            k += 1
+    return out
+
+
+MATCHES = ['"a"', '"ab"', '"Ab"i', '"61 62"b', '/a+/', '/a*b/', '/[^a]/', '/./', '/(ab|c){1,2}/', 'b/61[62-63]+/', '/[a-c]x?/', '"c"', '/b+c/', '("a" /b+/)', '/\\d+/', '/[ab]/', '/[ab]+/', '/[bc]/', '/[bc]x/']
 ACTIONS = ['x += [$last + 1]', 'n = [n * 2 + ($last & 1)]', 's = "xy"', 's = ""', 'delete x', 'h()', 'g()', 'f = true', 'e = B', 'b = [b + 1]',
            'n = [x.len - 1]', 'b = [x[0] % 7]', 'u += [65]', 'r += [n]']
 CONDS = ['n > 2', 'x.len == 0', 'x[0] != 97', '$last == 99', 'f', '!f && n < 5', 'b >= 3 || e == B', 's[1] == 120']
